@@ -409,6 +409,20 @@ def run_unit(unit, tier):
                     one(build_hunk(body, len(body) - 1, 3, 3, False, b'ctx',
                                    pl) + build_hunk('DI', None, 40, 40, True,
                                                     None, b'x'), ig, True)
+        # every byte value as the FIRST byte of a line inside an unfinished
+        # hunk (only blank, "-", "+" and the marker's backslash mean
+        # something there) and of a line between / after hunks
+        for b in range(256):
+            if b == 0x0A:
+                continue
+            for rest in (b'', b'x', b' x'):
+                ln = bytes([b]) + rest
+                for ig in (False, True):
+                    one([b'@@ -1,2 +1,2 @@', b' c', ln, b'-a', b'+b'], ig,
+                        True)
+                    one([b'@@ -1 +1 @@', ln], ig, True)
+                    one([b'@@ -1 +1 @@', b'-a', b'+b', ln,
+                         b'@@ -5 +5 @@', b'-c', b'+d'], ig, True)
         # every byte value in the header's context text (function names in
         # latin-1 / Shift-JIS sources, invalid UTF-8, NUL)
         for b in range(256):
